@@ -188,7 +188,7 @@ def main(tier):
         }
         return rep.finish(cov, assumptions=["job pool of 13 heterogeneous jobs on small molecules; intra-op threads set to 1 for bitwise comparison",
                                             "shared mutable default dicts (learned_parameters=dict()) are observed to accumulate keys; they are overwritten before being read (checked through the result comparison), not modelled as hidden state",
-                                            "driver objects are created per call from the settings dict (reusing a driver across element sets is not part of the pool)"])
+                                            "one driver object per settings dict, re-used across the calls of a history while the dict's element list and the job's declared settings are unchanged"])
     finally:
         common.rm(scratch)
 
